@@ -31,7 +31,7 @@ cd /verif
 git -C /repo apply "$SRC/$K.patch.diff" || { echo "cannot apply to /repo"; exit 2; }
 RESULTS=""
 for c in $CHECKS; do
-  ./check $c quick > /tmp/seedverify-$PROP-$K.check-$c.log 2>&1; rc=$?
+  VERIF_EVIDENCE_DIR=/verif/.run/seed-evidence ./check $c quick > /tmp/seedverify-$PROP-$K.check-$c.log 2>&1; rc=$?
   RESULTS="$RESULTS $c=$rc"
   grep -m2 -A1 "^VIOLATION" /tmp/seedverify-$PROP-$K.check-$c.log | cut -c1-300
 done
